@@ -89,11 +89,18 @@ MdNew(m, d, hasRef, ry, ovf) ==
   IN IF ~YearOK(y) THEN ErrRange
      ELSE LET r == DateChecked(RegDate(y, m, d, ovf))
           IN IF r.kind # "ok" THEN r ELSE Ok(MDV(r.val.m, r.val.d, y))
+\* a field record (ISOMonthDayFromFields): month | monthCode and day are needed; the day is regulated in the year given, or - without
+\* one - in the reference year 1972, a leap year; the result carries the reference year either way
+MdFromPartial(p, ovf) ==
+  LET q == IF Sup(p, "year") THEN p ELSE [k \in DOMAIN p \cup {"year"} |-> IF k = "year" THEN RefYear ELSE p[k]]
+      o == FromPartialDate(q, ovf)
+  IN IF o.kind = "ok" THEN Ok(MDV(o.val.m, o.val.d, RefYear)) ELSE o
 MdRoute(r) ==
   CASE r.k = "str" -> MdFromString(r)
     [] r.k = "date" -> MdFromDate(r.d)
     [] r.k = "new" -> MdNew(r.m, r.d, Sup(r, "ry"), Fld(r, "ry", RefYear), r.ovf)
     [] r.k = "default" -> Ok(MDV(1, 1, RefYear))
+    [] r.k = "partial" -> MdFromPartial(r.p, r.ovf)
 MdExplicit(r) == r.k = "new" /\ Sup(r, "ry")
 
 (* ---------------- comparison / equality of two values ---------------- *)
@@ -156,6 +163,7 @@ MdRouteCls(r) ==
        [] r.k = "new" -> IF Sup(r, "ry") THEN "new+ref" \o (IF ~YearOK(r.ry) THEN "/beyond" ELSE Feb(r.m, r.d)) \o "/" \o r.ovf
                          ELSE "new" \o Feb(r.m, r.d) \o "/" \o r.ovf
        [] r.k = "default" -> "default"
+       [] r.k = "partial" -> "partial" \o (IF Sup(r.p, "year") THEN "+year" ELSE "") \o "/" \o r.ovf
 \* comparisons of two routes: which special kinds of route take part
 CmpTag(kind, r) == IF kind = "ym" THEN (IF Explicit(r) THEN "explicit" ELSE IF r.k = "partial" /\ Sup(r.p, "day") THEN "partial+day" ELSE "plain")
                    ELSE (IF MdExplicit(r) THEN "explicit" ELSE "plain")
